@@ -105,6 +105,10 @@ def compare(res, case, out):
             if sorted(io['ins']) != sorted(case['consumes'][x]):
                 mism = ('the inputs the real unit loaded are not its declared inputs', sorted(case['consumes'][x]),
                         sorted(io['ins']))
+            elif mo[1] != 'T' and not premise:
+                # the load hypothesis rests on "changed => reported new"; once a changed value had content
+                # stored before (premise of the clause not met) the clause and its hypotheses do not apply
+                res.count('model:load-hypothesis-fails-outside-the-premise')
             elif mo[1] != 'T':
                 latest = {v: int(c) for v, c in zip(case['consumes'][x], mo[4])}
                 mism = ('hypothesis WOk(read) fails on the real code: the unit is not one the model has in flight, '
